@@ -155,6 +155,48 @@ theorem C09_partial (r : Rule) (hwf : r.wf = true)
     viaSession r = viaInline r ∧ viaPersistent r = viaInline r ∧ viaRestart r = viaInline r :=
   paths_agree_of_roundtrip r (rule_roundtrip r hwf hl hs hp) (by simpa [Rule.serStable] using hser) hj
 
+/-! ### `litStable` discharged -/
+
+/-- On the printed text: a literal whose text (after an optional sign) has any non-digit character —
+    a decimal point, `inf`, `NaN` — keeps its kind. -/
+theorem stable_of_nondigit (f : FloatLit) (c : Char) (hc : c ∈ f.text.toList) (hnd : c.isDigit = false)
+    (hsign : c ≠ '-' ∧ c ≠ '+') : f.stable = true := by
+  have hmem : c ∈ (stripSign f.text.toList).2 := by
+    unfold stripSign
+    split
+    · rename_i r heq
+      rw [heq] at hc
+      exact (List.mem_cons.mp hc).resolve_left hsign.1
+    · rename_i r heq
+      rw [heq] at hc
+      exact (List.mem_cons.mp hc).resolve_left hsign.2
+    · exact hc
+  have hall : (stripSign f.text.toList).2.all Char.isDigit = false := by
+    cases h : (stripSign f.text.toList).2.all Char.isDigit with
+    | false => rfl
+    | true => have := List.all_eq_true.mp h c hmem; simp [hnd] at this
+  unfold FloatLit.stable parseI64
+  simp [hall]
+
+example : (⟨0x4004000000000000, "2.5", none⟩ : FloatLit).stable = true :=
+  stable_of_nondigit _ '.' (by decide) (by decide) (by decide)
+
+/-- On the bits (`bitsStable`: not an integer of magnitude below 2⁶³) — the classification the `c09.lit`
+    requests compare with Rust's formatter and parser on every boundary value and 20 000 random doubles:
+    2.5, 2⁶³, −2⁶³, 5e-324, ∞ keep their kind; 2.0, −0.0, 2⁶³−1024 do not. -/
+example : bitsStable 0x4004000000000000 = true ∧ bitsStable 0x43e0000000000000 = true ∧ bitsStable 0xc3e0000000000000 = true
+    ∧ bitsStable 1 = true ∧ bitsStable 0x7ff0000000000000 = true
+    ∧ bitsStable 0x4000000000000000 = false ∧ bitsStable 0x8000000000000000 = false ∧ bitsStable 0x43dfffffffffffff = false := by decide
+
+/-- `C09_partial` with the literal condition stated on the bits, for rules whose literal texts classify as
+    their bits do (what `c09.lit` establishes for Rust's `{}`). -/
+theorem C09_partial_bits (r : Rule) (hwf : r.wf = true)
+    (hfmt : ∀ f, f ∈ r.floats → f.stable = bitsStable f.bits)
+    (hl : ∀ f, f ∈ r.floats → bitsStable f.bits = true)
+    (hs : r.sciHidden = false) (hp : r.atomParen = false) (hser : r.serStable = true) (hj : r.jsonExact = true) :
+    viaSession r = viaInline r ∧ viaPersistent r = viaInline r ∧ viaRestart r = viaInline r :=
+  C09_partial r hwf (List.all_eq_true.mpr fun f hf => by rw [hfmt f hf]; exact hl f hf) hs hp hser hj
+
 /-- each excluded family is necessary: dropping its hypothesis alone is refuted by the witnesses above -/
 example : wFloat.wf = true ∧ wFloat.sciHidden = false ∧ wFloat.atomParen = false ∧ wFloat.serStable = true ∧ wFloat.jsonExact = true := by decide
 example : wSci.wf = true ∧ wSci.litStable = true ∧ wSci.atomParen = false ∧ wSci.serStable = true ∧ wSci.jsonExact = true := by decide
